@@ -287,6 +287,9 @@ func Select(hasDefault bool, cases ...Case) int {
 	p := &pend{kind: kChan, hasDefault: hasDefault, cases: make([]*chanCase, len(cases))}
 	for i, c := range cases {
 		p.cases[i] = c.vcase()
+		if hasDefault && ex.x != nil && ex.x.NoPolling && p.cases[i].co != nil && p.cases[i].co.cap == 0 {
+			HarnessError("select with default on the unbuffered channel %s although the harness declared NoPolling", p.cases[i].co.obj.name)
+		}
 	}
 	t := ex.block(p)
 	return t.sel.idx
